@@ -16,8 +16,10 @@ from circuits.core.handlers import handler  # noqa: E402
 from circuits.web import http as WH  # noqa: E402
 from circuits.web import wrappers as WW  # noqa: E402
 
+from circuits.net import sockets as SK  # noqa: E402
+
 from harness.common import Part, run_property  # noqa: E402
-from harness.httpkit import Rig, parse_responses  # noqa: E402
+from harness.httpkit import Rig, StackRig, parse_responses  # noqa: E402
 from pathex import PathEnd  # noqa: E402
 
 PROPERTY = 'C15'
@@ -99,7 +101,7 @@ class App(BaseComponent):
         return res
 
 
-def make_harness(two_requests=True, kinds=KINDS, sizes=SIZES, statuses=STATUSES):
+def make_harness(two_requests=True, kinds=KINDS, sizes=SIZES, statuses=STATUSES, partial_sends=0):
     def one_config(g, i):
         kind = g.pick('kind%d' % i, kinds)
         size = g.pick('size%d' % i, sizes) if kind != 'none' else 0
@@ -117,7 +119,24 @@ def make_harness(two_requests=True, kinds=KINDS, sizes=SIZES, statuses=STATUSES)
         return (s + '\r\n').encode()
 
     def harness(g):
-        rig = Rig(App)
+        if not partial_sends:
+            return run(g, Rig(App))
+        # the real TCP server component below the HTTP component; the OS takes only part of some blocks
+        sends = {'n': 0}
+
+        def accept(sock, data):
+            sends['n'] += 1
+            if sends['n'] > partial_sends or len(data) < 2:
+                return len(data)
+            how = g.pick('send%d' % sends['n'], ['all', 'half', 'one'])
+            return len(data) if how == 'all' else (len(data) // 2 if how == 'half' else 1)
+        rig = StackRig(App, accept=accept)
+        try:
+            return run(g, rig)
+        finally:
+            rig.close()
+
+    def run(g, rig):
         sock = rig.new_sock()
         configs = []
         n = 2 if two_requests else 1
@@ -196,6 +215,7 @@ def canaries():
         ('content-length-counts-chars', 'responses', lambda: mutate(WW.Response, 'prepare', 'len(s.encode(self.encoding)) if not isinstance(s, bytes) else len(s)', 'len(s)'), None),
         ('chunk-terminator-missing', 'responses', lambda: mutate(WH.HTTP, '_on_stream', "if res.chunked:\n            self.fire(write(sock, b'0\\r\\n\\r\\n'))", "if res.chunked and res.close:\n            self.fire(write(sock, b'0\\r\\n\\r\\n'))"), None),
         ('no-close-for-1.0', 'responses', lambda: mutate(WW.Response, 'prepare', 'else:\n                self.close = True', 'else:\n                self.close = self.protocol == \'HTTP/1.1\''), None),
+        ('partial-send-requeued-at-end', 'partial-sends', lambda: mutate(SK.Server, '_write', 'self._buffers[sock].appendleft(data[nbytes:])', 'self._buffers[sock].append(data[nbytes:])'), ['response-not-well-formed', 'body-differs']),
         ('clients-entry-kept', 'keep-alive-pairs', lambda: mutate(WH.HTTP, '_on_response', 'if sock in self._clients:\n                del self._clients[sock]\n            res.done = True', 'res.done = True'), None),
     ]
 
@@ -205,10 +225,16 @@ def parts(tier):
         return [
             Part('responses', make_harness(two_requests=False), bounds={'requests': 1, 'kinds': KINDS, 'sizes': SIZES, 'statuses': STATUSES, 'versions': ['1.1', '1.0'], 'connection': ['absent', 'keep-alive', 'close'], 'methods': ['GET', 'HEAD'], 'stream': 'on/off for generators'},
                  encoded=ENC, budget_s=85),
+            Part('partial-sends', make_harness(two_requests=True, kinds=['str', 'gen-bytes', 'file'], sizes=[5, 4097], statuses=[200], partial_sends=2),
+                 bounds={'requests': '1-2', 'kinds': ['str', 'gen-bytes', 'file'], 'sizes': [5, 4097], 'transport': 'real TCPServer component; each of the first 2 send() calls takes all / half / one byte of the block'},
+                 encoded=ENC + [WH.HTTP._on_stream, SK.Server.write, SK.Server._on_write, SK.Server._write], budget_s=90),
             Part('keep-alive-pairs', make_harness(two_requests=True, kinds=['str', 'gen-bytes', 'file', 'none'], sizes=[0, 5], statuses=[200, 204, 500]),
                  bounds={'requests': 2, 'kinds': ['str', 'gen-bytes', 'file', 'none'], 'sizes': [0, 5], 'statuses': [200, 204, 500]}, encoded=ENC + [WH.HTTP._on_stream], budget_s=85),
         ]
     return [Part('responses', make_harness(two_requests=False), bounds={'requests': 1}, encoded=ENC, budget_s=900),
+            Part('partial-sends', make_harness(two_requests=True, kinds=['str', 'list', 'gen-bytes', 'gen-empty-items', 'file', 'file-short-reads'], sizes=[5, 4097], statuses=[200, 500], partial_sends=4),
+                 bounds={'requests': '1-2', 'sizes': [5, 4097], 'transport': 'real TCPServer component; each of the first 4 send() calls takes all / half / one byte'},
+                 encoded=ENC + [WH.HTTP._on_stream, SK.Server.write, SK.Server._on_write, SK.Server._write], budget_s=1800),
             Part('keep-alive-pairs', make_harness(two_requests=True, sizes=[0, 5, 4097]), bounds={'requests': 2, 'sizes': [0, 5, 4097]}, encoded=ENC + [WH.HTTP._on_stream], budget_s=3000)]
 
 
